@@ -198,6 +198,10 @@ class P(Prop):
         "carry (quotes inside / leading / doubled, comma, semicolon, blanks, empty, non-ASCII incl. non-BMP, tab, CR, LF) in free "
         "columns, 0-3 extra columns with such header names, raw-file names / modified sequences with quotes or blanks; the Type cell "
         "takes all 7 MaxQuant values independently of the scan-number cell in 60 % of the cases; "
+        "result files carry 0-3 extra columns (filename equal to / differing from / unrelated to the raw file or empty, ExpMass, CalcMass, "
+        "Label, ScanNr, rank ...) at random positions, --pout_input_type andromeda explicit 30 %; 10 % of the cases compare the dictionary "
+        "of get_percolator_results alone (andromeda / empty / prosit input type, prosit identifiers with dashes, filename column, labelled "
+        "sequences), 5 % parse_prosit_psmid_and_peptide alone on identifiers glued from 16 tokens; "
         "non-trivial = non-empty results and at least one rewritten "
         "and one dropped-or-MBR row; distinct by sha1 of the case"
     )
@@ -207,7 +211,8 @@ class P(Prop):
         "the names of the columns the merge looks up are ASCII; other header cells may hold any character that str.lower() does not map into ASCII (not U+212A KELVIN SIGN, U+0130)",
         "the output file is written with the locale's encoding (get_tsv_writer opens it without one): the check runs in Python's UTF-8 mode and decodes it as UTF-8",
         "result files (Percolator / mokapot) are handed to the model as rows of cells: their csv layer (tab or comma by extension) is the harness's csv.writer and the code's reader, not the Lean reader",
-        "Andromeda-style identifiers (--pout_input_type andromeda); prosit identifiers and --mq_input_type peptides are outside the property",
+        "Andromeda-style identifiers (--pout_input_type andromeda) for the merge; for prosit identifiers the result-file side only (key, dictionary, fixed-modification table) is compared with the model, without oracle; --mq_input_type peptides is outside the property",
+        "int(float(s)) of the prosit branch is modelled on [+-]digits[.digits] below 2^53 (no exponent, inf, nan, blanks)",
     ]
 
     # ------------------------------------------------------------------ generation
@@ -220,6 +225,13 @@ class P(Prop):
             # the identifier parser alone (malformed identifiers included)
             psmid = "_".join(rng.choice(self.ID_TOKENS) for _ in range(rng.randint(1, 6)))
             return {"psmid": psmid, "peptide": rng.choice(self.PEPT_STRINGS)}
+        r0 = rng.random()
+        if r0 < 0.05:
+            # parse_prosit_psmid_and_peptide alone (identifiers glued from tokens, filename cell empty / dashed / plain)
+            psmid = "-".join(rng.choice(self.PROSIT_TOKENS) for _ in range(rng.randint(1, 7)))
+            return {"prosit_key": psmid, "peptide": rng.choice(self.PROSIT_PEPT), "filename": rng.choice(self.PROSIT_FILENAMES)}
+        if r0 < 0.15:
+            return self._gen_dict_case(rng)
         nfiles = rng.choice([1, 1, 2, 2, 3])
         raws = rng.sample(RAWS, rng.randint(2, 4))
         mods = rng.sample(MODS, rng.randint(2, 5))
@@ -315,6 +327,7 @@ class P(Prop):
                     body = hdr[:-1]
                     rng.shuffle(body)
                     hdr = body + hdr[-1:]
+            fn_of = self._add_extra_result_columns(hdr, fmt, rng, raws)
             if rng.random() < 0.15:
                 hdr = [h.lower() for h in hdr]
             names = [h.lower() for h in hdr]
@@ -326,6 +339,12 @@ class P(Prop):
                 if keys and rng.random() < 0.5:  # aim at an evidence row
                     raw, scan, m = rng.choice(keys)
                 vals = {
+                    "filename": fn_of(raw, rng),
+                    "calcmass": "1000.49",
+                    "rank": "1",
+                    "spectrum": "controllerType=0 scan=%d" % scan,
+                    "retention_time": "12.5",
+                    "charge2": "1",
                     "psmid": f"{raw}_{scan_spelling(scan, rng)}_{rng.randint(2, 4)}_1",
                     "specid": f"{raw}_{scan_spelling(scan, rng)}_{rng.randint(2, 4)}_1",
                     "score": rng.choice(SCORES),
@@ -383,6 +402,116 @@ class P(Prop):
             del rf["rows"][0][rng.choice(js)]  # result header loses a required column name
         return case
 
+    # ------------------------------------------------------------------ column layouts of the result files
+    EXTRA_RES_COLS = ["filename", "filename", "filename", "ExpMass", "CalcMass", "Label", "ScanNr", "rank", "spectrum",
+                      "retention_time", "charge2"]
+    FILENAME_MODES = ["same", "mzml", "path", "pin", "empty", "other", "mixed"]
+
+    def _add_extra_result_columns(self, hdr, fmt, rng, raws):
+        """0-3 EXTRA columns in a result file, at random positions (every reader of the merge locates its columns by
+        name; the positional tail of native Percolator files - everything from proteinIds on - is not read by the
+        merge, so a column may also follow it).  Returns the function raw file -> value of the `filename` cell."""
+        have = {h.lower() for h in hdr}
+        for _ in range(rng.choice([0, 0, 1, 1, 2, 3])):
+            c = rng.choice(self.EXTRA_RES_COLS)
+            if c.lower() in have:
+                continue
+            have.add(c.lower())
+            last = len(hdr) - (1 if rng.random() < 0.8 else 0)  # mostly in front of the protein column
+            hdr.insert(rng.randint(0, last), c)
+        mode = rng.choice(self.FILENAME_MODES)
+        pin = rng.choice(["andromeda.tab", "rescore.pin", "all_raw_files"])
+
+        def fn_of(raw, rng, mode=mode):
+            if mode == "mixed":
+                mode = rng.choice(self.FILENAME_MODES[:-1])
+            if mode == "same":
+                return raw
+            if mode == "mzml":
+                return raw + ".mzML"
+            if mode == "path":
+                return "/data/" + raw + ".raw"
+            if mode == "pin":
+                return pin
+            if mode == "other":  # the name of ANOTHER raw file of the case
+                return raws[(raws.index(raw) + 1) % len(raws)] if raw in raws else raws[0]
+            return ""
+
+        return fn_of
+
+    # ---- the dictionary of rescoring results alone, for both identifier conventions
+    PROSIT_RAWS = ["raw1", "raw-2-b", "r3", "sample-x-y", "a--b"]
+    PROSIT_SEQS = ["AAAK", "AAmK", "mmK", "[UNIMOD:737]-AAK[UNIMOD:737]", "[UNIMOD:737]AAK[UNIMOD:737]", "[UNIMOD:2016]-mK[UNIMOD:2016]",
+                   "AC[UNIMOD:4]K", "[UNIMOD:214]-AmC[UNIMOD:4]K", "[UNIMOD:730]AK", "A[UNIMOD:737]-K", "K[UNIMOD:259]AR[UNIMOD:267]"]
+    PROSIT_SCANS = ["12", "012", "3.0", "7.9", "+4", "1", "2", "2.0", "3"]
+    PROSIT_TOKENS = ["", "raw", "a", "1", "07", "3.0", "7.9", "+3", "-2", "x1", "AAmK", "[UNIMOD:737]", "2", "1.", ".5x", "0"]
+    PROSIT_PEPT = ["_.AAmK._", "_.[UNIMOD:737]-AAK._", "_.[UNIMOD:737]AAK._", "ab", "", "_.mm._", "_.[UNIMOD:2016]-mK[UNIMOD:2016]._",
+                   "_.A-B-C._", "_.[UNIMOD:730]-[UNIMOD:737]-K._", "_.[UNIMOD:73]-mK._"]
+    PROSIT_FILENAMES = ["", "", "raw", "raw-a", "a-1-07", "x", "r-a-w-1-2-3-4"]
+
+    def _gen_dict_case(self, rng):
+        prosit = rng.random() < 0.6
+        results = []
+        raws = rng.sample(self.PROSIT_RAWS if prosit else RAWS, rng.randint(2, 3))
+        seqs = rng.sample(self.PROSIT_SEQS if prosit else MODS, rng.randint(2, 5))
+        for pf in range(rng.choice([1, 1, 2, 3])):
+            fmt = rng.choice(["native", "mokapot"])
+            ext = rng.choice([".txt", ".txt", ".csv"])
+            if fmt == "native":
+                hdr = ["PSMId", "score", "q-value", "posterior_error_prob", "peptide", "proteinIds"]
+            else:
+                hdr = ["SpecId", "Label", "ScanNr", "ExpMass", "Peptide", "mokapot score", "mokapot q-value", "mokapot PEP", "Proteins"]
+                if rng.random() < 0.5:
+                    body = hdr[:-1]
+                    rng.shuffle(body)
+                    hdr = body + hdr[-1:]
+            fn_of = self._add_extra_result_columns(hdr, fmt, rng, raws)
+            if prosit and "filename" not in hdr and rng.random() < 0.6:
+                hdr.insert(rng.randint(0, len(hdr) - 1), "filename")  # Oktoberfest output: the raw file is this column
+            if rng.random() < 0.15:
+                hdr = [h.lower() for h in hdr]
+            names = [h.lower() for h in hdr]
+            with_event = "filename" not in names or rng.random() < 0.5
+            label = rng.choice([None, None, "737", "2016", "214", "730"])  # a labelled experiment: every peptide carries it
+            rows = []
+            for _ in range(rng.choice([0, 1, 2, 3, 4, 6])):
+                raw, m, scan = rng.choice(raws), rng.choice(seqs), rng.randint(1, 4)
+                if prosit and label and rng.random() < 0.93:
+                    m = "[UNIMOD:%s]%s%s[UNIMOD:%s]" % (label, rng.choice(["-", "-", ""]), rng.choice(["AAK", "AmK", "mK", "AC[UNIMOD:4]K"]), label)
+                if prosit:
+                    sc = rng.choice(self.PROSIT_SCANS)
+                    ident = "%s-%s-%s-%d%s" % (raw, sc, m, rng.randint(2, 4), "-1" if with_event else "")
+                    pept = "_." + m + "._"
+                else:
+                    ident = f"{raw}_{scan_spelling(scan, rng)}_{rng.randint(2, 4)}_1"
+                    pept = perc_pep(m, rng)
+                vals = {
+                    "psmid": ident, "specid": ident, "score": rng.choice(SCORES), "mokapot score": rng.choice(SCORES),
+                    "q-value": "0.01", "mokapot q-value": "0.01", "posterior_error_prob": rng.choice(PEPS),
+                    "mokapot pep": rng.choice(PEPS), "peptide": pept, "proteinids": "P1", "proteins": "P1",
+                    "label": rng.choice(["1", "-1"]), "scannr": str(scan), "expmass": "1000.5",
+                    "filename": fn_of(raw, rng) if not prosit or rng.random() < 0.12 else (raw if with_event or rng.random() < 0.9 else ""),
+                    "calcmass": "1000.49", "rank": "1", "spectrum": "scan=%d" % scan, "retention_time": "12.5", "charge2": "1",
+                }
+                row = [vals[n] for n in names]
+                if fmt == "native" and rng.random() < 0.3:
+                    row.append("P9")
+                rows.append(row)
+            sc = names.index("score" if fmt == "native" else "mokapot score")
+            pc = names.index("posterior_error_prob" if fmt == "native" else "mokapot pep")
+            results.append({"ext": ext, "value_cols": [sc, pc], "rows": [hdr] + rows})
+        case = {"kind": "dict", "input_type": "prosit" if prosit else rng.choice(["andromeda", "andromeda", ""]), "results": results}
+        r = rng.random()
+        if r < 0.03 and len(results[0]["rows"]) > 1:
+            i = [h.lower() for h in results[0]["rows"][0]].index("psmid" if "psmid" in [h.lower() for h in results[0]["rows"][0]] else "specid")
+            results[0]["rows"][1][i] = rng.choice(["abc_1", "raw-x-2-1", "nodash", "raw--2-1", "a_b", "a-b"])
+        elif r < 0.05:
+            rf = rng.choice(results)
+            if len(rf["rows"]) > 1:
+                row = rng.choice(rf["rows"][1:])
+                del row[rng.randrange(len(row)):]
+        return case
+
     # ------------------------------------------------------------------ file names, order given, entry point
     EV_DIRS = ["", "run_C", "run_A", "run_B", "Z", "a", "run_C/sub", "10", "9"]
     EV_BASES = ["evidence.txt", "msms.txt", "evidence_2.txt", "Evidence.txt", "evidence_10.txt", "b_evidence.txt"]
@@ -437,6 +566,8 @@ class P(Prop):
         if nr and rng.random() < 0.06:  # the same result file given twice: its rows overwrite again
             res_args.insert(rng.randint(0, len(res_args)), rng.randrange(nr))
         case["ev_args"], case["res_args"] = ev_args, res_args
+        # --pout_input_type: left to its default ("andromeda") or given explicitly (main / module entries)
+        case["pout_flag"] = rng.random() < 0.3
         r = rng.random()
         if r < 0.25:
             case["entry"] = "api"
@@ -499,17 +630,21 @@ class P(Prop):
         return ev, res, out
 
     @staticmethod
-    def argv(ev, res, out):
+    def argv(ev, res, out, pout_flag=False):
         args = ["--mq_evidence"] + ev + ["--mq_evidence_out", out]
         if res:
             args += ["--perc_results"] + res
+        if pout_flag:
+            args += ["--pout_input_type", "andromeda"]
         return args
 
     @staticmethod
     def classify(tname, msg, frames):
         if tname == "IndexError":
-            return "bad_psmid" if "parse_andromeda_psmid_and_peptide" in frames else "short_row"
+            return "bad_psmid" if ("parse_andromeda_psmid_and_peptide" in frames or "parse_prosit_psmid_and_peptide" in frames) else "short_row"
         if tname == "ValueError":
+            if "could not convert string to float" in msg and "parse_prosit_psmid_and_peptide" in frames:
+                return "bad_scan"
             if "is missing" in msg:
                 return "missing_column"
             if "invalid literal for int" in msg:
@@ -558,8 +693,23 @@ class P(Prop):
                     return {"err": "bad_scan"}
                 raise
             return {"raw": raw, "scan": scan, "modseq": seq}
+        if "prosit_key" in case:
+            from picked_group_fdr.parsers import percolator, modifications
+
+            try:
+                raw, scan, seq = percolator.parse_prosit_psmid_and_peptide(
+                    case["prosit_key"], case["peptide"][2:-2], case["filename"], modifications.prosit_mod_to_proforma())
+            except IndexError:
+                return {"err": "bad_psmid"}
+            except ValueError as e:
+                if "could not convert string to float" in str(e):
+                    return {"err": "bad_scan"}
+                raise
+            return {"raw": raw, "scan": scan, "modseq": seq}
         from picked_group_fdr.pipeline import update_evidence_from_pout as u
 
+        if case.get("kind") == "dict":
+            return self._run_dict(case, u)
         entry = self._naming(case)[4]
         d = tempfile.mkdtemp(prefix="c15_")
         try:
@@ -571,7 +721,7 @@ class P(Prop):
                     u.update_evidence_files(ev, res, out, "auto", "andromeda", False)
                 elif entry == "module":
                     p = subprocess.run(
-                        [lib.PY, "-m", "picked_group_fdr.pipeline.update_evidence_from_pout"] + self.argv(ev, res, out),
+                        [lib.PY, "-m", "picked_group_fdr.pipeline.update_evidence_from_pout"] + self.argv(ev, res, out, case.get("pout_flag", False)),
                         env=lib.impl_env(), cwd=d, capture_output=True, text=True, timeout=300)
                     if p.returncode != 0:
                         enum = self.classify_stderr(p.stderr)
@@ -581,7 +731,7 @@ class P(Prop):
                             return {"err": enum, "published_despite_error": True}
                         return {"err": enum}
                 else:
-                    u.main(self.argv(ev, res, out))
+                    u.main(self.argv(ev, res, out, case.get("pout_flag", False)))
             except Exception as e:
                 enum = self.classify_exc(e)
                 if enum is None:
@@ -591,6 +741,33 @@ class P(Prop):
                 return {"err": enum}
             text = self._read_text(out)
             return {"text": text, "rows": tsv_parse(text)}
+        finally:
+            shutil.rmtree(d, ignore_errors=True)
+
+    def _run_dict(self, case, u):
+        """get_percolator_results(files, input_type): the dictionary of rescoring results in insertion order and the
+        fixed-modification table of the last file (as its index in FIXED_MODS_DICTS)"""
+        from picked_group_fdr.parsers import modifications
+
+        d = tempfile.mkdtemp(prefix="c15d_")
+        try:
+            paths = []
+            for i, r in enumerate(case["results"]):
+                p = os.path.join(d, "pout_%d%s" % (i, r["ext"]))
+                self._write(p, r["rows"], "," if r["ext"] == ".csv" else "\t")
+                paths.append(p)
+            try:
+                fixed, res = u.get_percolator_results(paths, case["input_type"])
+            except Exception as e:
+                enum = self.classify_exc(e)
+                if enum is None:
+                    raise
+                return {"err": enum}
+            k = [i for i, x in enumerate(modifications.FIXED_MODS_DICTS) if x is fixed]
+            if len(k) != 1:
+                raise RuntimeError("fixed modifications returned are none of FIXED_MODS_DICTS: %r" % (fixed,))
+            return {"dict": [[raw, [[scan, seq, repr(sc), repr(pep)] for (scan, seq), (sc, pep) in inner.items()]]
+                             for raw, inner in res.items()], "fixed": k[0]}
         finally:
             shutil.rmtree(d, ignore_errors=True)
 
@@ -623,9 +800,12 @@ class P(Prop):
     def model_request(self, case, impl_out):
         if "psmid" in case:
             return {"op": "psmid", "psmid": case["psmid"], "peptide": case["peptide"]}
-        _, results = self.given(case)
-        ev_args = self._naming(case)[2]
-        evidence = [self.ev_text(case, i) for i in ev_args]  # the TEXT of the files, in the order given
+        if "prosit_key" in case:
+            return {"op": "prosit_key", "psmid": case["prosit_key"], "peptide": case["peptide"], "filename": case["filename"]}
+        if case.get("kind") == "dict":
+            results = case["results"]
+        else:
+            _, results = self.given(case)
         raw = []
         for r in results:
             rows = [list(x) for x in r["rows"][:1]]
@@ -639,6 +819,10 @@ class P(Prop):
                             pass
                 rows.append(row)
             raw.append(rows)
+        if case.get("kind") == "dict":
+            return {"op": "results_dict", "input_type": case["input_type"], "results_raw": raw}
+        ev_args = self._naming(case)[2]
+        evidence = [self.ev_text(case, i) for i in ev_args]  # the TEXT of the files, in the order given
         if self._naming(case)[4] == "pipeline":
             return [{"op": "merge_text", "evidence_text": [f], "results_raw": raw} for f in evidence]
         return {"op": "merge_text", "evidence_text": evidence, "results_raw": raw}
@@ -683,8 +867,11 @@ class P(Prop):
             if any(n not in names for n in list(need.values()) + also):
                 return None
             ix = {k: names.index(v) for k, v in need.items()}
+            # a `filename` column, when present, is READ by the code for every row (a row too short for it is
+            # malformed) - its value plays no part for Andromeda-style identifiers: the key comes from the identifier
+            fcol = names.index("filename") if "filename" in names else -1
             for row in rows[1:]:
-                if max(ix.values()) >= len(row):
+                if max(max(ix.values()), fcol) >= len(row):
                     return None
                 m = self.PSMID.match(row[ix["id"]])
                 if not m:
@@ -746,6 +933,24 @@ class P(Prop):
             seq = (pept[2:-2] if len(pept) >= 4 else "").replace("[42]", "(ac)").replace("M[16]", "M(ox)")
             want = {"raw": m.group(1) or "", "scan": int(m.group(2)), "modseq": seq}
             return None if impl_out == want else "PSM id %r read as %r, expected %r" % (case["psmid"], impl_out, want)
+        if "prosit_key" in case:
+            return None  # prosit identifiers are outside the property text: correspondence only
+        if case.get("kind") == "dict":
+            if case["input_type"] == "prosit":
+                return None  # outside the property text: correspondence only
+            table = self._join_table(case["results"])
+            if "err" in impl_out:
+                return None if table is None else "well-formed result files rejected with %s (get_percolator_results, input type %r)" % (
+                    impl_out["err"], case["input_type"])
+            if table is None:
+                return None
+            got = {(raw, scan, seq): (sc, pep) for raw, inner in impl_out["dict"] for scan, seq, sc, pep in inner}
+            if got != table:
+                diff = sorted(set(got.items()) ^ set(table.items()), key=repr)[:4]
+                return ("rescoring results filed under other keys / values than (raw file, scan) of the identifier "
+                        "<raw file>_<scan>_<charge>_<rank>, the peptide cell and the last row's values give (input type %r); "
+                        "differing entries: %r" % (case["input_type"], diff))
+            return None
         if impl_out.get("published_despite_error"):
             return "the step raised %s but an output file exists under the final name" % impl_out.get("err")
         evidence, results = self.given(case)
@@ -820,9 +1025,35 @@ class P(Prop):
                 j += 1
         return st
 
+    def _filename_feats(self, results):
+        """how the `filename` cells of the result files relate to the raw file of the identifier"""
+        f = set()
+        for r in results:
+            if not r["rows"]:
+                continue
+            names = [h.lower() for h in r["rows"][0]]
+            idn = "psmid" if "psmid" in names else ("specid" if "specid" in names else None)
+            base = 6 if idn == "psmid" else 9
+            f.add("res_extra_columns=%d" % max(0, len(names) - base))
+            if "filename" not in names:
+                f.add("res_filename_column=absent")
+                continue
+            fc = names.index("filename")
+            for row in r["rows"][1:]:
+                if idn is None or max(fc, names.index(idn)) >= len(row):
+                    continue
+                m = self.PSMID.match(row[names.index(idn)])
+                raw = (m.group(1) or "") if m else None
+                f.add("res_filename_cell=" + ("empty" if row[fc] == "" else "equals_raw_file" if row[fc] == raw else "differs_from_raw_file"))
+        return sorted(f)
+
     def nontrivial(self, case, impl_out):
         if "psmid" in case:
             return isinstance(impl_out, dict) and "raw" in impl_out and "_" in impl_out["raw"]
+        if "prosit_key" in case:
+            return isinstance(impl_out, dict) and "raw" in impl_out
+        if case.get("kind") == "dict":
+            return isinstance(impl_out, dict) and sum(len(inner) for _, inner in impl_out.get("dict", [])) >= 2
         st = self._row_stats(case, impl_out)
         nres = sum(max(0, len(r["rows"]) - 1) for r in case["results"])
         return nres > 0 and st["rewritten"] >= 1 and (st["dropped"] >= 1 or st["unchanged"] >= 1)
@@ -830,7 +1061,20 @@ class P(Prop):
     def features(self, case, impl_out):
         if "psmid" in case:
             return ["kind=psmid", "psmid_" + ("err=" + impl_out["err"] if isinstance(impl_out, dict) and "err" in impl_out else "ok")]
+        if "prosit_key" in case:
+            return ["kind=prosit_key", "prosit_key_" + ("err=" + impl_out["err"] if isinstance(impl_out, dict) and "err" in impl_out else "ok"),
+                    "prosit_key_filename_" + ("empty" if case["filename"] == "" else "given")]
+        if case.get("kind") == "dict":
+            f = ["kind=dict", "dict_input_type=%s" % (case["input_type"] or "(empty)")] + ["dict/" + x for x in self._filename_feats(case["results"])]
+            if isinstance(impl_out, dict) and "err" in impl_out:
+                f.append("dict_err=" + impl_out["err"])
+            elif isinstance(impl_out, dict):
+                f.append("dict_fixed_mods=%s" % impl_out.get("fixed"))
+            return f
         f = ["kind=merge", "evidence_files=%d" % len(case["evidence"]), "result_files=%d" % len(case["results"])]
+        f += self._filename_feats(case["results"])
+        if case.get("pout_flag"):
+            f.append("pout_input_type_given_explicitly")
         ev_paths, res_paths, ev_args, res_args, entry = self._naming(case)
         f.append("entry=" + entry)
         given_ev = [ev_paths[i] for i in ev_args]
@@ -927,6 +1171,38 @@ class P(Prop):
             for i in range(len(parts)):
                 if len(parts) > 1:
                     yield {"psmid": "_".join(parts[:i] + parts[i + 1 :]), "peptide": case["peptide"]}
+            return
+        if "prosit_key" in case:
+            parts = case["prosit_key"].split("-")
+            for i in range(len(parts)):
+                if len(parts) > 1:
+                    yield dict(case, prosit_key="-".join(parts[:i] + parts[i + 1 :]))
+            return
+        # result files: drop a column that the merge does not look up (value columns re-indexed)
+        REQ_RES = ("psmid", "specid", "peptide", "score", "mokapot score", "q-value", "mokapot q-value", "posterior_error_prob",
+                   "mokapot pep", "proteinids", "proteins")
+        for i, r in enumerate(case["results"]):
+            if not r["rows"]:
+                continue
+            for j, h in enumerate(r["rows"][0]):
+                if h.lower() not in REQ_RES:
+                    c = copy.deepcopy(case)
+                    for row in c["results"][i]["rows"]:
+                        if j < len(row):
+                            del row[j]
+                    c["results"][i]["value_cols"] = [v - (1 if v > j else 0) for v in r["value_cols"]]
+                    yield c
+        if case.get("kind") == "dict":
+            for i in range(len(case["results"])):
+                if len(case["results"]) > 1:
+                    c = copy.deepcopy(case)
+                    del c["results"][i]
+                    yield c
+            for i, r in enumerate(case["results"]):
+                for j in range(1, len(r["rows"])):
+                    c = copy.deepcopy(case)
+                    del c["results"][i]["rows"][j]
+                    yield c
             return
         ev, res = case["evidence"], case["results"]
 
